@@ -395,6 +395,13 @@ structure Search where
   best : Int := 0
   deriving Repr, Inhabited
 
+/-- the renormalisation test of `state_align_search_step` (state_align_search.c:201-202, with the repair of D28):
+`sas->best_score BETTER_THAN WORST_SCORE && (sas->best_score - 0x300000) WORSE_THAN WORST_SCORE` — a dead search
+(`best_score == WORST_SCORE`) is not renormalised -/
+def renormDue (best : Int) : Prop := best > worst ∧ best - 0x300000 < worst
+
+instance (best : Int) : Decidable (renormDue best) := inferInstanceAs (Decidable (_ ∧ _))
+
 /-- `state_align_search_init` + `state_align_search_start` -/
 def start (nPhones : Nat) : Search :=
   { hmms := (List.range nPhones).map fun i => if i = 0 then { s0 := 0, h0 := 0, frame := 0 } else {} }
@@ -439,8 +446,8 @@ def advance (tps : Array (Array Int)) (sf ef : Array Int) (sen : Array Int) (f :
 /-- one frame: `tps[i]` = transition matrix of phone i, `sen` = senone score per state (3 per phone).
 Returns the search and the token row pushed by `record_transitions`. -/
 def step (tps : Array (Array Int)) (sf ef : Array Int) (sen : Array Int) (f : Int) (s : Search) : Search × List Tok :=
-  -- renormalisation (never reached in practice; kept as in the C code)
-  let hm := if s.best - 0x300000 < worst then s.hmms.map (normalize s.best) else s.hmms
+  -- renormalisation (`renormalize_hmms`: `hmm_normalize` on every HMM)
+  let hm := if renormDue s.best then s.hmms.map (normalize s.best) else s.hmms
   let best := ((evalPhase tps sen f hm).map (·.2)).foldl (fun b x => if x > b then x else b) worst
   let hm := advance tps sf ef sen f hm
   ({ hmms := relabel f hm, best := best }, hm.flatMap (rowOf f))
@@ -452,13 +459,26 @@ def runAux (tps : Array (Array Int)) (sf ef : Array Int) :
   | [], s, _, rows, rn => (s, rows, rn)
   | sen :: rest, s, f, rows, rn =>
     let r := step tps sf ef sen (f : Int) s
-    runAux tps sf ef rest r.1 (f + 1) (rows ++ [r.2]) (rn || decide (s.best - 0x300000 < worst))
+    runAux tps sf ef rest r.1 (f + 1) (rows ++ [r.2]) (rn || decide (renormDue s.best))
 
 /-- the whole second pass over the per-frame senone scores; returns the token stack, the final
 `(out_history, out_score)` of the last phone, and whether the renormalisation branch was ever taken -/
 def run (tps : Array (Array Int)) (sf ef : Array Int) (frames : List (Array Int)) : List (List Tok) × Tok × Bool :=
   let n := sf.size
   let r := runAux tps sf ef frames (start n) 0 [] false
+  let last := r.1.hmms.getD (n - 1) {}
+  (r.2.1, ⟨last.outH, last.out⟩, r.2.2)
+
+/-- `start` with the entry score `s0` instead of 0 (`hmm_enter(sas->hmms, s0, 0, 0)`): used by the renormalisation
+probe of the correspondence check, which starts a hand-stepped second pass close to the renormalisation threshold -/
+def startWith (nPhones : Nat) (s0 : Int) : Search :=
+  { hmms := (List.range nPhones).map fun i => if i = 0 then { s0 := s0, h0 := 0, frame := 0 } else {} }
+
+/-- `run` from `startWith n s0` -/
+def runWith (s0 : Int) (tps : Array (Array Int)) (sf ef : Array Int) (frames : List (Array Int)) :
+    List (List Tok) × Tok × Bool :=
+  let n := sf.size
+  let r := runAux tps sf ef frames (startWith n s0) 0 [] false
   let last := r.1.hmms.getD (n - 1) {}
   (r.2.1, ⟨last.outH, last.out⟩, r.2.2)
 
